@@ -43,7 +43,19 @@ ANCHOR_FUNCS = {'xlcalculator/xlfunctions/math.py': [
     'POWER', 'EXP']}
 TIMEOUT = {'quick': 600, 'thorough': 3000}
 
-decimal.getcontext().prec = 900
+# the reference works in its OWN decimal context: the subject uses the
+# thread's default context and must see it untouched
+REFCTX = decimal.Context(prec=900)
+
+
+def in_refctx(fn):
+    import functools
+
+    @functools.wraps(fn)
+    def wrapper(*a, **kw):
+        with decimal.localcontext(REFCTX):
+            return fn(*a, **kw)
+    return wrapper
 
 
 def shards(tier):
@@ -60,11 +72,13 @@ def ulp(x):
 
 # -- rounding references ------------------------------------------------------
 
+@in_refctx
 def ref_round(x, d, mode):
     q = Decimal(1).scaleb(-d)
     return float((D(x) / q).to_integral_value(rounding=mode) * q)
 
 
+@in_refctx
 def ref_multiple(x, s, up):
     """CEILING (up) / FLOOR (down): s*ceil(x/s) / s*floor(x/s), exact"""
     q = D(x) / D(s)
@@ -73,6 +87,7 @@ def ref_multiple(x, s, up):
     return float(n * D(s))
 
 
+@in_refctx
 def ref_even(x):
     d = D(x)
     n = (abs(d) / 2).to_integral_value(rounding=decimal.ROUND_CEILING) * 2
@@ -212,11 +227,12 @@ def run(ctx):
         x = gen_decimal(rng, hostile)
         d = rng.randint(-10, 10) if rng.random() < 0.6 else rng.randint(-3, 4)
         dx = D(x)
-        try:
-            sc = abs(dx).scaleb(d)
-            tie = 'tie' if (sc * 2) % 1 == 0 and sc % 1 != 0 else 'plain'
-        except decimal.InvalidOperation:
-            tie = 'plain'
+        with decimal.localcontext(REFCTX):
+            try:
+                sc = abs(dx).scaleb(d)
+                tie = 'tie' if (sc * 2) % 1 == 0 and sc % 1 != 0 else 'plain'
+            except decimal.InvalidOperation:
+                tie = 'plain'
         formula_ok = mag_class(x) == 'mid' and rng.random() < 0.05
         for fname, mode in ROUNDERS.items():
             want = ref_round(x, d, mode)
@@ -231,14 +247,15 @@ def run(ctx):
                 R.both(fname, (x,), ref_round(x, 0, mode), 'rounding',
                        (fname, sign_class(x), 'default', tie, mag_class(x)))
         if mag_class(x) != 'huge' or True:
-            want = float(D(x).to_integral_value(rounding=decimal.ROUND_FLOOR))
+            with decimal.localcontext(REFCTX):
+                want = float(D(x).to_integral_value(
+                    rounding=decimal.ROUND_FLOOR))
+                whole = 'whole' if D(x) % 1 == 0 else 'frac'
             R.both('INT', (x,), want, 'rounding',
-                   ('INT', sign_class(x), mag_class(x),
-                    'whole' if D(x) % 1 == 0 else 'frac'),
+                   ('INT', sign_class(x), mag_class(x), whole),
                    formula=formula_ok)
             R.both('EVEN', (x,), ref_even(x), 'rounding',
-                   ('EVEN', sign_class(x), mag_class(x),
-                    'whole' if D(x) % 1 == 0 else 'frac'),
+                   ('EVEN', sign_class(x), mag_class(x), whole),
                    tags=('huge',) if mag_class(x) == 'huge' else ())
         # CEILING / FLOOR with a significance
         s = rng.choice([1, 2, 5, 10, 0.5, 0.25, 0.1, 0.2, 0.05, 3, 0.3, 7,
@@ -253,10 +270,12 @@ def run(ctx):
                     continue
                 if x < 0 < s or (x < 0 and s < 0) or (x > 0 and s > 0):
                     want = ref_multiple(x, s, up)
-                    dy = 'dyadic' if (D(s) * 1024) % 1 == 0 else 'nondyadic'
+                    with decimal.localcontext(REFCTX):
+                        dy = 'dyadic' if (D(s) * 1024) % 1 == 0 \
+                            else 'nondyadic'
+                        mult = 'multiple' if D(x) % D(s) == 0 else 'between'
                     R.both(fname, (x, s), want, 'rounding',
-                           (fname, sign_class(x), sign_class(s), dy,
-                            'multiple' if D(x) % D(s) == 0 else 'between'),
+                           (fname, sign_class(x), sign_class(s), dy, mult),
                            formula=formula_ok, tags=(dy,))
     for fname in ('CEILING',):
         R.both(fname, (2.5, 0), 0.0, 'rounding', (fname, 'significance-0'))
